@@ -68,7 +68,7 @@ def check_revision(res, prop, sig, table, rconds, idxs, gpz, fixed, how):
     fp = {idxs[k]: v for k, v in fixed[1].items() if k < len(idxs)}
     case = {"sig": list(sig), "prior": list(table), "rev": [forms.ctxt(x) for x in rconds], "rev_f": rconds, "indices": list(idxs),
             "gamma_plus_zero": gpz, "fixed_minus": {str(k): v for k, v in fm.items()}, "fixed_plus": {str(k): v for k, v in fp.items()},
-            "config": how, "tname": "gpz" if gpz else "free",
+            "config": how, "tname": "gpz" if gpz else "free", "has_fixed": bool(fm or fp),
             "has_unfalsifiable": any(f == 0 for _v, f in sems.values()), "has_unverifiable": any(v == 0 for v, _f in sems.values())}
     res.evals += 1
     try:
@@ -207,6 +207,7 @@ class C19(Check):
     def run(self, task):
         res = Result()
         kind, sig, table, payload = task
+        dig = []
         if kind == "rev":
             for rconds in payload:
                 idxs = [3, 1][: len(rconds)] if len(rconds) <= 2 else [5, 2, 9]
@@ -216,11 +217,19 @@ class C19(Check):
                         if gpz and fixed[1]:
                             continue
                         for how in (("fast", "model") if fi in (0, 2) else ("fast",)):
-                            res.counters["c_revision_%s" % check_revision(res, self.id, sig, table, rconds, idxs, gpz, fixed, how)] += 1
+                            st = check_revision(res, self.id, sig, table, rconds, idxs, gpz, fixed, how)
+                            # calls with fixed values hit the recorded finding (free symbols): z3's choice for them is
+                            # not reproducible across processes, so they are kept out of the determinism digest
+                            if fixed[0] or fixed[1]:
+                                res.counters["c_revision_with_fixed_values"] += 1
+                            else:
+                                res.counters["c_revision_%s" % st] += 1
+                                dig.append(st)
             res.samples.append({"prior": list(table), "signature": sig, "revision_lists": len(payload), "example": [forms.ctxt(x) for x in payload[-1]]})
         else:
             self.seq(res, sig, table, payload)
-        res.digest = (res.evals, [repr(v["observed"])[:60] for v in res.violations[:5]], sorted(res.counters.items()))
+        res.digest = (res.evals, dig, [repr(v["observed"])[:60] for v in res.violations if not v["case"].get("has_fixed")][:5],
+                      sorted(res.counters.items()))
         return res
 
     def seq(self, res, sig, table, payload):
